@@ -625,4 +625,295 @@ theorem sim_loop : ∀ (cs₁ : Children) (contents : Contents),
           exact simL_andThen cfg _ _ _ _ (simSt_add cfg _ _ _ _ hignOK ⟨c1, a1, b1, l1, s1, i1⟩) (ih _ hR' hrest hcovrest)
 end
 
+theorem underP_refl (p : String) : UnderP p p := by
+  by_cases h : p = ""
+  · exact Or.inl h
+  · exact Or.inr (under_refl p)
+
+/-- A path below a child of the directory at `p` is below `p` and is not `p`. -/
+theorem under_child (p name q : String) (hn : pathName name) (h : Under q (joinable p ++ name)) : q ≠ p ∧ UnderP q p := by
+  by_cases hp : p = ""
+  · subst hp
+    refine ⟨?_, Or.inl rfl⟩
+    simp only [joinable] at h
+    obtain ⟨s, hq, _⟩ := h
+    intro he
+    rw [he] at hq
+    have := congrArg String.toList hq
+    simp [String.toList_append] at this
+    exact hn.2 this.1
+  · simp only [joinable, hp] at h
+    have h' : Under q (p ++ "/" ++ name) := h
+    exact ⟨under_join_ne q p name h', Or.inr (under_trans_join q p name h')⟩
+
+theorem coversL_nil (cfg : Cfg) (dirty : List String) (pfx : String) : ∀ cs₁, CoversL cfg dirty pfx [] cs₁
+  | [] => trivial
+  | (raw, c) :: rest => by
+    simp only [CoversL]
+    exact ⟨(fun _ _ raw₀ c₀ hm => by cases hm), coversL_nil cfg dirty pfx rest⟩
+
+/-- The old tree's loop data for the directory at `p` of the new tree. -/
+theorem old_loop (cfg : Cfg) (acc : Accel) (p : String) (isRoot mask : Bool) (dev₁ : Nat) (cs₁ : Children)
+    (hne : cs₁.isEmpty = false) (b : Option Entry) (c₀ : Option Node) (mask₀ : Bool) (link₀ : Fault × String)
+    (hold : OldAt cfg acc p isRoot mask true c₀ mask₀ link₀) (hbase : BaseOf cfg p isRoot c₀ mask₀ link₀ b)
+    (hcov : ∀ c, c₀ = some c → Covers cfg acc.dirty p c (.dir dev₁ cs₁)) :
+    ∃ (cs₀ : Children) (contents₀ : Contents) (dL₀ : St),
+      scanChildren cfg {} (joinable p) cs₀ cs₀ none mask [] {} = some (contents₀, dL₀) ∧
+      (entryNames cfg cs₀).Nodup ∧ NamesOKL cfg validName cs₀ ∧
+      (∀ name q, pathName name → Under q (joinable p ++ name) → alookup q acc.cache = alookup q dL₀.newCache) ∧
+      (b = none ∨ ∃ pr, b = some (.mk pr contents₀)) ∧
+      CoversL cfg acc.dirty (joinable p) cs₀ cs₁ := by
+  obtain ⟨hloc, hnames, hmask⟩ := hold
+  -- the fallback: nothing is known / nothing was cached below `p`
+  have fallback : (∀ name q, pathName name → Under q (joinable p ++ name) → alookup q acc.cache = none) → b = none →
+      ∃ (cs₀ : Children) (contents₀ : Contents) (dL₀ : St),
+        scanChildren cfg {} (joinable p) cs₀ cs₀ none mask [] {} = some (contents₀, dL₀) ∧
+        (entryNames cfg cs₀).Nodup ∧ NamesOKL cfg validName cs₀ ∧
+        (∀ name q, pathName name → Under q (joinable p ++ name) → alookup q acc.cache = alookup q dL₀.newCache) ∧
+        (b = none ∨ ∃ pr, b = some (.mk pr contents₀)) ∧
+        CoversL cfg acc.dirty (joinable p) cs₀ cs₁ := by
+    intro hnone hb
+    refine ⟨[], [], {}, rfl, by simp [entryNames], trivial, ?_, Or.inl hb, coversL_nil cfg _ _ cs₁⟩
+    intro name q hn hq
+    rw [hnone name q hn hq]
+    rfl
+  cases hc₀ : c₀ with
+  | none =>
+    subst hc₀
+    apply fallback
+    · intro name q hn hq
+      rw [hloc q (under_child p name q hn hq).2]
+      rfl
+    · rcases hbase with h | ⟨c, e, hc, _⟩
+      · exact h
+      · cases hc
+  | some c =>
+    subst hc₀
+    have hokc := hnames c rfl
+    cases c with
+    | dir d₀ cs₀ =>
+      rcases cold_dir cfg p isRoot mask₀ link₀ d₀ cs₀ with ⟨h2, h1⟩ | ⟨contents₀, dL₀, hs₀, hcold₀⟩
+      · -- the old directory scanned to nothing (problematic, vanished)
+        apply fallback
+        · intro name q hn hq
+          rw [hloc q (under_child p name q hn hq).2]
+          simp only [h2]
+          rfl
+        · rcases hbase with h | ⟨c, e, hc, he, hk, _⟩
+          · exact h
+          · cases hc
+            rcases h1 with h1 | h1 | ⟨msg, h1⟩
+            · rw [h1] at he; cases he
+            · rw [h1] at he; cases he
+            · rw [h1] at he; cases he; simp [problematic, Entry.kind, Entry.props] at hk
+      · have hm : mask₀ = mask := hmask _ rfl rfl rfl
+        subst hm
+        simp only [NamesOK] at hokc
+        have hcv := hcov _ rfl
+        simp only [Covers, hne] at hcv
+        have hb' : b = none ∨ ∃ pr, b = some (.mk pr contents₀) := by
+          rcases hbase with h | ⟨c, e, hc, he, _, hbe⟩
+          · exact Or.inl h
+          · cases hc
+            rw [hcold₀] at he
+            cases he
+            exact Or.inr ⟨_, hbe⟩
+        have hlc : ∀ name q, pathName name → Under q (joinable p ++ name) → alookup q acc.cache = alookup q dL₀.newCache := by
+          intro name q hn hq
+          rw [hloc q (under_child p name q hn hq).2]
+          simp only [hcold₀]
+        cases hcs₀ : cs₀ with
+        | nil =>
+          subst hcs₀
+          simp [scanChildren] at hs₀
+          obtain ⟨rfl, rfl⟩ := hs₀
+          exact ⟨[], [], {}, rfl, by simp [entryNames], trivial, hlc, hb', coversL_nil cfg _ _ cs₁⟩
+        | cons x xs =>
+          subst hcs₀
+          simp only [List.isEmpty_cons, Bool.false_eq_true, if_false] at hs₀ hcv
+          exact ⟨x :: xs, contents₀, dL₀, hs₀, hokc.1, hokc.2, hlc, hb', hcv⟩
+    | file content₀ perm₀ mtime₀ size₀ ino₀ =>
+      apply fallback
+      · intro name q hn hq
+        obtain ⟨hqp, hqu⟩ := under_child p name q hn hq
+        rw [hloc q hqu]
+        simp only
+        rcases cold_file cfg p isRoot mask₀ link₀ content₀ perm₀ mtime₀ size₀ ino₀ with ⟨h2, _⟩ | ⟨_, _, _, h⟩
+        · rw [h2]; rfl
+        · rw [h]
+          simp only [alookup]
+          rw [if_neg (fun he => hqp he.symm)]
+      · rcases hbase with h | ⟨c, e, hc, he, hk, _⟩
+        · exact h
+        · cases hc
+          obtain ⟨⟨d, cs, hd⟩, _⟩ := cold_directory_kind cfg p isRoot mask₀ link₀ _ e he hk
+          cases hd
+    | symlink t =>
+      apply fallback
+      · intro name q hn hq
+        rw [hloc q (under_child p name q hn hq).2]
+        simp only
+        rw [cold_leaf_cache cfg p isRoot mask₀ link₀ (.symlink t) rfl (fun _ _ _ _ _ h => by cases h)]
+        rfl
+      · rcases hbase with h | ⟨c, e, hc, he, hk, _⟩
+        · exact h
+        · cases hc
+          obtain ⟨⟨d, cs, hd⟩, _⟩ := cold_directory_kind cfg p isRoot mask₀ link₀ _ e he hk
+          cases hd
+    | other k =>
+      apply fallback
+      · intro name q hn hq
+        rw [hloc q (under_child p name q hn hq).2]
+        simp only
+        rw [cold_leaf_cache cfg p isRoot mask₀ link₀ (.other k) rfl (fun _ _ _ _ _ h => by cases h)]
+        rfl
+      · rcases hbase with h | ⟨c, e, hc, he, hk, _⟩
+        · exact h
+        · cases hc
+          obtain ⟨⟨d, cs, hd⟩, _⟩ := cold_directory_kind cfg p isRoot mask₀ link₀ _ e he hk
+          cases hd
+
+theorem scanFile_ign (cfg : Cfg) (acc : Accel) (p : String) (isRoot : Bool) (content : Bytes) (perm : Nat) (mtime : MTime)
+    (size ino : Nat) (st : St) : (scanFile cfg acc p isRoot content perm mtime size ino st).2.newIgnore = st.newIgnore := by
+  unfold scanFile
+  simp only
+  split
+  · rfl
+  · split <;> rfl
+
+theorem scanSymlink_ign (cfg : Cfg) (p : String) (link : Fault × String) (b : Bool) (st : St) :
+    (scanSymlink cfg p link b st).2.newIgnore = st.newIgnore := by
+  unfold scanSymlink
+  split
+  · rfl
+  · rfl
+  · split <;> rfl
+
+/-- The digest cache is fresh for a file of the new tree. -/
+theorem cacheFresh_of_old (cfg : Cfg) (acc : Accel) (p : String) (isRoot mask : Bool) (content : Bytes) (perm : Nat)
+    (mtime : MTime) (size ino : Nat) (c₀ : Option Node) (mask₀ : Bool) (link₀ : Fault × String)
+    (hold : OldAt cfg acc p isRoot mask false c₀ mask₀ link₀)
+    (hcov : ∀ c, c₀ = some c → Covers cfg acc.dirty p c (.file content perm mtime size ino)) :
+    CacheFresh cfg acc p isRoot content mtime size ino := by
+  obtain ⟨hloc, hnames, _⟩ := hold
+  have hl := hloc p (underP_refl p)
+  cases hc₀ : c₀ with
+  | none => subst hc₀; left; rw [hl]; rfl
+  | some c =>
+    subst hc₀
+    simp only at hl
+    cases c with
+    | dir d₀ cs₀ =>
+      left
+      rw [hl]
+      exact cold_dir_no_self_key cfg p isRoot mask₀ link₀ d₀ cs₀ (hnames _ rfl)
+    | file content₀ perm₀ mtime₀ size₀ ino₀ =>
+      rcases cold_file cfg p isRoot mask₀ link₀ content₀ perm₀ mtime₀ size₀ ino₀ with ⟨h2, _⟩ | ⟨hopen, hlen, hvalid, h⟩
+      · left; rw [hl, h2]; rfl
+      · right
+        refine ⟨content₀, perm₀, mtime₀, size₀, ino₀, ?_, hopen, hlen, hvalid, ?_⟩
+        · rw [hl, h]; simp [alookup]
+        · have := hcov _ rfl
+          simp only [Covers] at this
+          exact this
+    | symlink t =>
+      left
+      rw [hl, cold_leaf_cache cfg p isRoot mask₀ link₀ (.symlink t) rfl (fun _ _ _ _ _ h => by cases h)]
+      rfl
+    | other k =>
+      left
+      rw [hl, cold_leaf_cache cfg p isRoot mask₀ link₀ (.other k) rfl (fun _ _ _ _ _ h => by cases h)]
+      rfl
+
+set_option linter.unusedSectionVars false
+
+section
+variable (cfg : Cfg) (acc : Accel) (hign : IgnOK cfg acc.ignoreCache)
+include hign
+
+mutual
+/-- The accelerated handler of a node simulates the cold one. -/
+theorem sim_node : (n₁ : Node) → SimOK cfg acc n₁
+  | .file content perm mtime size ino => by
+    intro p isRoot mask link b c₀ mask₀ link₀ _ hold _ hcov
+    have hfresh := cacheFresh_of_old cfg acc p isRoot mask content perm mtime size ino c₀ mask₀ link₀ hold hcov
+    simp only [cold]
+    unfold scanNode
+    rw [sim_file cfg acc p isRoot content perm mtime size ino hfresh {}]
+    refine ⟨rfl, simSt_refl cfg _ ?_⟩
+    rw [scanFile_ign]
+    intro kv hkv
+    cases hkv
+  | .symlink t => by
+    intro p isRoot mask link b c₀ mask₀ link₀ _ _ _ _
+    simp only [cold]
+    unfold scanNode
+    refine ⟨rfl, simSt_refl cfg _ ?_⟩
+    cases cfg.symlinkMode
+    · intro kv hkv; cases hkv
+    · simp only; rw [scanSymlink_ign]; intro kv hkv; cases hkv
+    · simp only; rw [scanSymlink_ign]; intro kv hkv; cases hkv
+  | .other k => by
+    intro p isRoot mask link b c₀ mask₀ link₀ _ _ _ _
+    simp only [cold]
+    unfold scanNode
+    exact ⟨rfl, simSt_refl cfg _ (fun kv hkv => by cases hkv)⟩
+  | .dir dev₁ cs₁ => by
+    intro p isRoot mask link b c₀ mask₀ link₀ hok hold hbase hcov
+    simp only [cold]
+    unfold scanNode
+    have hinert : ∀ r : Res, SimRes cfg (r, ({} : St)) (r, ({} : St)) :=
+      fun r => ⟨rfl, simSt_refl cfg _ (fun kv hkv => by cases hkv)⟩
+    by_cases hdev : dev₁ ≠ cfg.deviceID
+    · rw [if_pos hdev, if_pos hdev]; exact hinert _
+    · rw [if_neg hdev, if_neg hdev]
+      generalize (if isRoot = true then Fault.none else cfg.openDirFault p) = opened
+      cases opened
+      · simp only
+        by_cases hrd : cfg.readDirFault p = true
+        · rw [if_pos hrd, if_pos hrd]; exact hinert _
+        · rw [if_neg hrd, if_neg hrd]
+          simp only [NamesOK] at hok
+          have hloop : SimL cfg (scanChildren cfg acc (if cs₁.isEmpty then "" else joinable p) cs₁ cs₁ b mask [] {})
+              (scanChildren cfg {} (if cs₁.isEmpty then "" else joinable p) cs₁ cs₁ none mask [] {}) := by
+            cases hne : cs₁.isEmpty with
+            | true =>
+              have : cs₁ = [] := by simpa using hne
+              subst this
+              simp only [scanChildren, SimL]
+              exact ⟨trivial, simSt_refl cfg {} (fun kv hkv => by cases hkv)⟩
+            | false =>
+              simp only [Bool.false_eq_true, if_false]
+              obtain ⟨cs₀, contents₀, dL₀, hrun₀, hnd₀, hok₀, hlc, hb, hcv⟩ :=
+                old_loop cfg acc p isRoot mask dev₁ cs₁ hne b c₀ mask₀ link₀ hold hbase hcov
+              exact sim_loop cfg acc hign (joinable p) mask cs₁ cs₀ contents₀ dL₀ hrun₀ hnd₀ hok₀ hlc b hb cs₁ []
+                (sim_list cs₁) hok.2 hcv
+          cases hra : scanChildren cfg acc (if cs₁.isEmpty then "" else joinable p) cs₁ cs₁ b mask [] {} with
+          | none =>
+            cases hrc : scanChildren cfg {} (if cs₁.isEmpty then "" else joinable p) cs₁ cs₁ none mask [] {} with
+            | none => exact hinert _
+            | some y => rw [hra, hrc] at hloop; cases hloop
+          | some x =>
+            cases hrc : scanChildren cfg {} (if cs₁.isEmpty then "" else joinable p) cs₁ cs₁ none mask [] {} with
+            | none => rw [hra, hrc] at hloop; cases hloop
+            | some y =>
+              rw [hra, hrc] at hloop
+              simp only [SimL] at hloop
+              obtain ⟨hc, h1, h2, h3, h4, h5, h6⟩ := hloop
+              obtain ⟨xc, xd⟩ := x
+              obtain ⟨yc, yd⟩ := y
+              simp only at hc h1 h2 h3 h4 h5 h6 ⊢
+              subst hc
+              exact ⟨rfl, h1, by simp [h2], h3, h4, h5, h6⟩
+      · exact hinert _
+      · exact hinert _
+theorem sim_list : (cs : Children) → ∀ rn ∈ cs, SimOK cfg acc rn.2
+  | [], rn, h => by cases h
+  | (r, n) :: rest, rn, h => by
+    rcases List.mem_cons.mp h with rfl | h
+    · exact sim_node n
+    · exact sim_list rest rn h
+end
+end
+
 end Mutagen.Proofs.ScanSim
